@@ -242,12 +242,25 @@ impl Arena {
     fn hash(&self, size: usize) -> u64 {
         let a = unsafe { std::slice::from_raw_parts(self.ptr.add(MARGIN), size) };
         let mut h: u64 = 0;
-        // x mod (2^55 - 55) without a division: 2^55 = 55 (mod P), so x = hi * 2^55 + lo = hi * 55 + lo; with h < P the
-        // value x = h * 256 + b is below 2^63 and the folded one below 2^55 + 14080 < 2 P
-        for b in a.iter().rev() {
-            let x = h * 256 + *b as u64;
+        // x mod (2^55 - 55) without a division: 2^55 = 55 (mod P), so hi * 2^55 + lo = hi * 55 + lo (mod P).
+        // The arena is the little-endian integer sum a[i] * 256^i, taken from the top: first byte by byte down to a
+        // multiple of 8, then a u64 at a time: h' = h * 2^64 + word, folded twice (h < P < 2^55, so x < 2^119,
+        // y < 2^70, z < 2^55 + 55 * 2^15 < 2 P) and one conditional subtraction.
+        const M55: u128 = (1u128 << 55) - 1;
+        let mut i = size;
+        while i % 8 != 0 {
+            i -= 1;
+            let x = h * 256 + a[i] as u64;
             let y = (x >> 55) * 55 + (x & ((1u64 << 55) - 1));
             h = if y >= HASH_P { y - HASH_P } else { y };
+        }
+        while i >= 8 {
+            i -= 8;
+            let w = u64::from_le_bytes([a[i], a[i + 1], a[i + 2], a[i + 3], a[i + 4], a[i + 5], a[i + 6], a[i + 7]]);
+            let x: u128 = ((h as u128) << 64) | w as u128;
+            let y = (x >> 55) * 55 + (x & M55);
+            let z = ((y >> 55) * 55 + (y & M55)) as u64;
+            h = if z >= HASH_P { z - HASH_P } else { z };
         }
         debug_assert!(h < HASH_P);
         h
